@@ -191,7 +191,11 @@ int reb_binary_diff(char* buf1, size_t size1, char* buf2, size_t size2, char** b
                 pos2 = 64; // For next search
                 are_different = 1.;
                 if (output_option==0){
-                    reb_output_stream_write(bufp, &allocatedsize, sizep, &field1,sizeof(struct reb_binary_field));
+                    // The field no longer exists: write its header with size 0 (no payload follows).
+                    struct reb_binary_field field_vanished;
+                    memset(&field_vanished,0,sizeof(struct reb_binary_field));
+                    field_vanished.type = field1.type;
+                    reb_output_stream_write(bufp, &allocatedsize, sizep, &field_vanished,sizeof(struct reb_binary_field));
                 }else if (output_option==1 || output_option==3){
                     const struct reb_binary_field_descriptor fd = reb_binary_field_descriptor_for_type(field1.type);
                     char* buf;
